@@ -1212,6 +1212,149 @@ fn model_diff(drv: &mut Driver, w: &World) -> Option<(usize, String, String)> {
     None
 }
 
+// ---------------------------------------------------------------------------------------------
+// Projection onto the link model (one direction of one paired stream)
+// ---------------------------------------------------------------------------------------------
+
+/// One link action derived from a stimulus, with what the implementation answered (when comparable).
+struct LinkReq {
+    req: String,
+    expect: Option<String>,
+    step: usize,
+}
+
+/// For every stream paired on both endpoints and each direction: the link actions of the case, in
+/// order, up to the first event the link model does not describe (reader's handle dropped, any
+/// terminating event). Cases with injected frames or a reused flow id are not projected.
+fn link_projections(w: &World) -> Vec<(String, Vec<LinkReq>)> {
+    let mut out = vec![];
+    if w.injected || w.reused || w.cancelled {
+        return out;
+    }
+    // A receive loop parked on a full accept / bind queue leaves delivered messages unprocessed: the
+    // link model's `deliver` is the processing of the frame, which the trace then does not show.
+    // Such cases are not projected (the endpoint model covers them).
+    let mut waiting = [[0usize; 2]; 2]; // [endpoint][0 = streams not yet accepted, 1 = binds not yet fetched]
+    for st in &w.steps {
+        let t: Vec<&str> = st.line.split(' ').collect();
+        let e = match t.get(1) { Some(&"A") => 0usize, Some(&"B") => 1, _ => continue };
+        let res = st.out.split(" | ").next().unwrap_or("");
+        match t[0] {
+            "deliver" if t.get(2) == Some(&"bin") => match t.get(3).and_then(|h| parse_frame(h)) {
+                Some((0, _, _)) => waiting[e][0] += 1,
+                Some((5, _, _)) => waiting[e][1] += 1,
+                _ => {}
+            },
+            "accept" if res.starts_with("stream") => waiting[e][0] = waiting[e][0].saturating_sub(1),
+            "bindnext" if res.starts_with("bindreq") => waiting[e][1] = waiting[e][1].saturating_sub(1),
+            _ => {}
+        }
+        if waiting[e][0] > w.opts[e].accept_cap || (w.opts[e].bind_cap > 0 && waiting[e][1] > w.opts[e].bind_cap) {
+            return out;
+        }
+    }
+    let mut ports: Vec<(&u64, &[Option<usize>; 2])> = w.port_handle.iter().collect();
+    ports.sort();
+    for (port, hs) in ports {
+        let (Some(ha), Some(hb)) = (hs[0], hs[1]) else { continue };
+        let fids: Vec<u32> = w.fid_port.iter().filter(|(_, p)| *p == port).map(|(f, _)| *f).collect();
+        let [fid] = fids[..] else { continue };
+        let fidhex = hexd(&fid.to_be_bytes());
+        for (we, wh, re, rh) in [(0usize, ha, 1usize, hb), (1, hb, 0, ha)] {
+            let win = w.opts[re].rwnd;
+            let th = w.opts[re].threshold.min(w.opts[we].rwnd).min(w.opts[re].rwnd);
+            let mut reqs = vec![];
+            let mut writer_has_handle = false;
+            let mut writer_alive = true;
+            let mut writer_shutdown = false;
+            let mut rx_closed = false;
+            for (i, st) in w.steps.iter().enumerate() {
+                let t: Vec<&str> = st.line.split(' ').collect();
+                let (res, evs) = st.out.split_once(" | ").unwrap_or((st.out.as_str(), ""));
+                let e = match t.get(1) { Some(&"A") => 0usize, Some(&"B") => 1, _ => continue };
+                // the writer's handle comes into being
+                if !writer_has_handle && e == we {
+                    let made = (t[0] == "accept" && res.starts_with(&format!("stream {wh} ")))
+                        || evs.split("; ").any(|ev| ev.starts_with("opendone ") && ev.ends_with(&format!(" ok {wh}")));
+                    if made {
+                        writer_has_handle = true;
+                        continue; // the handshake Acknowledge of this very step is not a credit grant
+                    }
+                }
+                if evs.split("; ").any(|ev| ev.starts_with("exit ")) { break; }
+                match t[0] {
+                    "dropmux" => break,
+                    "deliver" if matches!(t.get(2), Some(&"err" | &"eof" | &"close")) => break,
+                    "write" | "writev" if e == we && t.get(2).and_then(|x| x.parse::<usize>().ok()) == Some(wh) => {
+                        let data: Vec<u8> = t[3..].iter().flat_map(|p| unhex(p).unwrap_or_default()).collect();
+                        let d = if data.is_empty() { "-".to_string() } else { hexd(&data) };
+                        reqs.push(LinkReq { req: format!("write {d}"), expect: Some(res.to_string()), step: i });
+                    }
+                    "shutdown" if e == we && t.get(2).and_then(|x| x.parse::<usize>().ok()) == Some(wh) => {
+                        writer_shutdown = true;
+                        reqs.push(LinkReq { req: "shutdown".into(), expect: None, step: i });
+                    }
+                    "dropstream" if e == we && t.get(2).and_then(|x| x.parse::<usize>().ok()) == Some(wh) => {
+                        writer_alive = false;
+                        if !writer_shutdown {
+                            reqs.push(LinkReq { req: "abort".into(), expect: None, step: i });
+                        }
+                    }
+                    "dropstream" if e == re && t.get(2).and_then(|x| x.parse::<usize>().ok()) == Some(rh) => break,
+                    "read" if e == re && t.get(2).and_then(|x| x.parse::<usize>().ok()) == Some(rh) => {
+                        let n = t.get(3).copied().unwrap_or("0");
+                        reqs.push(LinkReq { req: format!("read {n}"), expect: Some(res.to_string()), step: i });
+                    }
+                    "deliver" if t.get(2) == Some(&"bin") => {
+                        let Some(hex) = t.get(3) else { continue };
+                        let Some((op, id, p)) = parse_frame(hex) else { continue };
+                        if id != fid { continue; }
+                        if e == re && !rx_closed && matches!(op, 2 | 3 | 4) {
+                            let item = match op {
+                                4 => format!("push {}", if p.is_empty() { "-".to_string() } else { hexd(&p) }),
+                                3 => "fin".to_string(),
+                                _ => "rst".to_string(),
+                            };
+                            if op != 4 { rx_closed = true; }
+                            reqs.push(LinkReq { req: "deliver".into(), expect: Some(item), step: i });
+                        } else if e == we && op == 1 && writer_has_handle && writer_alive && p.len() >= 4 {
+                            let n = u32::from_be_bytes([p[0], p[1], p[2], p[3]]);
+                            reqs.push(LinkReq { req: "ack".into(), expect: Some(format!("ack {n}")), step: i });
+                        }
+                    }
+                    _ => {}
+                }
+            }
+            if !reqs.is_empty() {
+                out.push((format!("link {}#{wh} -> {}#{rh} flow {fidhex} W={win} th={th}", NAMES[we], NAMES[re]), {
+                    let mut v = vec![LinkReq { req: format!("new {win} {th}"), expect: None, step: 0 }];
+                    v.extend(reqs);
+                    v
+                }));
+            }
+        }
+    }
+    out
+}
+
+/// First disagreement between the link model and the implementation on this case:
+/// (link description, stimulus index, model answer, implementation answer).
+fn link_diff(drv: &mut Driver, w: &World) -> Option<(String, usize, String, String)> {
+    for (name, reqs) in link_projections(w) {
+        let lines: Vec<String> = reqs.iter().map(|r| r.req.clone()).collect();
+        let ans = drv.batch(&lines);
+        for (r, a) in reqs.iter().zip(ans.iter()) {
+            if let Some(exp) = &r.expect {
+                // write answers: `wrote n` / `pending` / `brokenpipe`; read answers: `data hex` / `pending` / `eof`
+                if a != exp {
+                    return Some((name, r.step, a.clone(), exp.clone()));
+                }
+            }
+        }
+    }
+    None
+}
+
 fn attribute(line: &str) -> Vec<&'static str> {
     let t: Vec<&str> = line.split_whitespace().collect();
     match t[0] {
@@ -1277,11 +1420,26 @@ fn main() {
     let rule = "random stimulus sequences over two real endpoints (application calls as single polls, one transport delivery per stimulus, faults, injected frames), independent option pairs per side, scripted flow ids from a small alphabet, followed by a fair completion phase; non-trivial = at least one frame sent by one endpoint was processed by the other and an application-visible exchange completed; distinct by stimulus list";
     let mut rep = Report::new("mux", &args, rule);
     let mut drv = args.driver.as_deref().map(|p| Driver::spawn(p, &[]).expect("start Lean driver"));
+    let mut link_drv = args.opt("--link-driver").map(|p| Driver::spawn(p, &[]).expect("start Lean link driver"));
     let (cases, len) = match args.tier { Tier::Quick => (2500, 60), Tier::Thorough => (60_000, 90) };
     let mut rng = Rng::new(args.seed ^ fnv(focus.name().as_bytes()));
 
     let mut handle_world = |w: World, origin: &str, rep: &mut Report, drv: &mut Option<Driver>| {
         let lines = all_lines(&w);
+        // the link model (on which the unbounded stream theorems are proved) against the implementation
+        if let Some(ld) = link_drv.as_mut() {
+            let n = link_projections(&w).iter().map(|(_, r)| r.len() as u64 - 1).sum::<u64>();
+            if n > 0 {
+                rep.count("link-model/cases-projected");
+                rep.count_n("link-model/actions-compared", n);
+            }
+            if let Some((name, i, m, im)) = link_diff(ld, &w) {
+                let upto: Vec<String> = lines.iter().take(i + 3).cloned().collect();
+                rep.fail(FailKind::Model, &format!("link-model:{}", w.steps[i].line.split(' ').next().unwrap_or("?")),
+                    &format!("{name}: at `{}` the link model answers `{m}`, the implementation `{im}`", w.steps[i].line),
+                    json!({"lines": upto, "model": m, "impl": im}));
+            }
+        }
         rep.case(w.exchanged.then(|| fnv(lines.join("\n").as_bytes())));
         rep.count(&format!("case/{origin}"));
         rep.count_n("stimuli", w.steps.len() as u64);
